@@ -2,6 +2,7 @@ package main
 
 import (
 	"fmt"
+	"go/token"
 	"strings"
 
 	"golang.org/x/tools/go/ssa"
@@ -163,5 +164,205 @@ func (c *Ctx) rulePruneStructure() {
 			}
 		})
 		c.ob("R-PRUNE", "(*node).prune:unlinks-pruned-node", pf.Pos(), del != nil && rec > 0, "a pruned node is unlinked from its parent and the children are visited recursively")
+	}
+}
+
+func init() {
+	register("C16", "comparator decision-table exploration of the leaf fold (R-CMP/spec), primary-count and selection structure (R-BESTBLOCK)",
+		"Decides: the fold step of highestLeaf replaces the current best leaf exactly when the candidate is (higher) or (equally high and earlier) or (equally high, same arrival and lower hash) — all 27 sign combinations of (number, arrival, hash) are explored on the closure's SSA — which is a strict total order, so the result of folding over the randomly ordered leaf map does not depend on the iteration order; the primary count of a leaf counts a node iff it is primary and not the root; bestBlock keeps the maximum count and returns either the single leaf with that count or the highestLeaf of the leaves with that count, all taken from the leaf map. "+
+			"Not decided: the counts for particular trees; the initial nil best leaf when the only leaf has number 0 is short-circuited by bestBlock.",
+		"time.Time.Before/Equal and bytes.Compare semantics", "DESIGN.md §3 R-CMP/spec; §4 C16",
+		func(c *Ctx) {
+			c.load(btDir)
+			c.ruleHighestLeaf()
+			c.min("R-CMP/spec", 27)
+			c.ruleBestBlock()
+			c.min("R-BESTBLOCK", 4)
+		})
+}
+
+func (c *Ctx) ruleHighestLeaf() {
+	f := c.fn(btDir, "(*leafMap).highestLeaf")
+	if f == nil || len(f.AnonFuncs) == 0 {
+		c.unresolved("highestLeaf closure")
+		return
+	}
+	cl := f.AnonFuncs[0]
+	c.doc("R-CMP/spec", "highestLeaf fold step: `deepest = candidate` executes iff number>max || (number==max && arrival earlier) || (number==max && arrival equal && hash lower); `max` is raised iff number>max")
+	var maxFV, deepFV *ssa.FreeVar
+	for _, fv := range cl.FreeVars {
+		switch fv.Name() {
+		case "max":
+			maxFV = fv
+		case "deepest":
+			deepFV = fv
+		}
+	}
+	if maxFV == nil || deepFV == nil {
+		c.ob("R-CMP/spec", "highestLeaf:state", cl.Pos(), false, "fold state (max, deepest) not found")
+		return
+	}
+	isCand := func(v ssa.Value) bool { // value derived from the closure's second parameter (the candidate)
+		for x := range backwardSlice(v, nil) {
+			if x == ssa.Value(cl.Params[1]) {
+				return true
+			}
+		}
+		return false
+	}
+	var deepStores, maxStores []ssa.Instruction
+	eachInstr(cl, func(_ *ssa.BasicBlock, _ int, in ssa.Instruction) {
+		if st, ok := in.(*ssa.Store); ok {
+			if st.Addr == ssa.Value(deepFV) {
+				deepStores = append(deepStores, in)
+			}
+			if st.Addr == ssa.Value(maxFV) {
+				maxStores = append(maxStores, in)
+			}
+		}
+	})
+	names := []string{"number", "arrival", "hash"}
+	for i := 0; i < 27; i++ {
+		sign := map[string]int{}
+		k := i
+		var desc []string
+		for _, a := range names {
+			sign[a] = k%3 - 1
+			k /= 3
+			desc = append(desc, fmt.Sprintf("%s%s", a, map[int]string{-1: "<", 0: "=", 1: ">"}[sign[a]]))
+		}
+		env := &cmpEnv{sign: sign,
+			attr: func(v ssa.Value) (attrRef, bool) {
+				v = stripConv(v)
+				if u, ok := v.(*ssa.UnOp); ok && u.X == ssa.Value(maxFV) {
+					return attrRef{"number", 1}, true
+				}
+				if _, fv, ok := fieldLoad(v); ok && fv != nil && fv.Name() == "number" && isCand(v) {
+					return attrRef{"number", 0}, true
+				}
+				return attrRef{}, false
+			},
+			extern: func(v ssa.Value) (any, bool) {
+				call, ok := v.(*ssa.Call)
+				if !ok {
+					return nil, false
+				}
+				n := calleeName(&call.Call)
+				recvIsCand := len(call.Call.Args) > 0 && isCand(call.Call.Args[0])
+				s := sign["arrival"]
+				if !recvIsCand {
+					s = -s
+				}
+				switch n {
+				case "(time.Time).Before":
+					return s < 0, true
+				case "(time.Time).After":
+					return s > 0, true
+				case "(time.Time).Equal":
+					return s == 0, true
+				case "bytes.Compare":
+					h := sign["hash"]
+					if !recvIsCand {
+						h = -h
+					}
+					return int64(h), true
+				}
+				return nil, false
+			}}
+		vis, forks := exploreForks(cl, env)
+		replaced, raised := false, false
+		for _, s := range deepStores {
+			if vis[s] {
+				replaced = true
+			}
+		}
+		for _, s := range maxStores {
+			if vis[s] {
+				raised = true
+			}
+		}
+		want := sign["number"] > 0 || (sign["number"] == 0 && sign["arrival"] < 0) || (sign["number"] == 0 && sign["arrival"] == 0 && sign["hash"] < 0)
+		exact := true
+		for _, iff := range forks {
+			if _, _, isNil := nilCmp(iff.Cond); !isNil {
+				exact = false // an unevaluated condition other than the nil-node guard
+			}
+		}
+		c.ob("R-CMP/spec", "highestLeaf:"+strings.Join(desc, ","), cl.Pos(), exact && replaced == want && raised == (sign["number"] > 0),
+			fmt.Sprintf("case %s: candidate replaces the best leaf=%v (specification %v), max raised=%v (specification %v), all conditions evaluated=%v", strings.Join(desc, ","), replaced, want, raised, sign["number"] > 0, exact))
+	}
+}
+
+func (c *Ctx) ruleBestBlock() {
+	c.doc("R-BESTBLOCK", "primaryAncestorCount adds 1 iff isPrimary && parent != nil and recurses to the parent; bestBlock raises `highest` on count > highest, returns counts[highest][0] when unique and otherwise highestLeaf over exactly counts[highest]")
+	p := c.fn(btDir, "(*node).primaryAncestorCount")
+	if p != nil {
+		var inc *ssa.BinOp
+		eachInstr(p, func(_ *ssa.BasicBlock, _ int, in ssa.Instruction) {
+			if bo, ok := in.(*ssa.BinOp); ok && bo.Op == token.ADD {
+				if k, ok := constInt(bo.Y); ok && k == 1 {
+					inc = bo
+				}
+			}
+		})
+		okInc := false
+		if inc != nil {
+			prim, par := false, false
+			for _, fc := range factsAt(inc.Block()) {
+				if _, fv, ok := fieldLoad(fc.cond); ok && fv != nil && fv.Name() == "isPrimary" && fc.truth {
+					prim = true
+				}
+				if e, neq, ok := nilCmp(fc.cond); ok {
+					if _, fv, ok := fieldLoad(e); ok && fv != nil && fv.Name() == "parent" && fc.truth == neq {
+						par = true
+					}
+				}
+			}
+			okInc = prim && par
+		}
+		c.ob("R-BESTBLOCK", "primaryAncestorCount:counts-primary-non-root", p.Pos(), okInc, "the count is incremented exactly for primary blocks other than the root (isPrimary && parent != nil)")
+		rec := false
+		eachInstr(p, func(_ *ssa.BasicBlock, _ int, in ssa.Instruction) {
+			if call, ok := in.(*ssa.Call); ok && call.Call.StaticCallee() == p {
+				if _, fv, ok := fieldLoad(call.Call.Args[0]); ok && fv != nil && fv.Name() == "parent" {
+					rec = true
+				}
+			}
+		})
+		c.ob("R-BESTBLOCK", "primaryAncestorCount:walks-to-parent", p.Pos(), rec, "the count continues with the parent node")
+	}
+	b := c.fn(btDir, "(*leafMap).bestBlock")
+	if b != nil && len(b.AnonFuncs) > 0 {
+		cl := b.AnonFuncs[0]
+		okMax := false
+		eachInstr(cl, func(blk *ssa.BasicBlock, _ int, in ssa.Instruction) {
+			st, ok := in.(*ssa.Store)
+			if !ok {
+				return
+			}
+			if fv, ok := st.Addr.(*ssa.FreeVar); ok && fv.Name() == "highest" {
+				okMax = guardedBy(blk, func(cond ssa.Value, truth bool) bool {
+					bo, ok := cond.(*ssa.BinOp)
+					if !ok {
+						return false
+					}
+					op := bo.Op
+					if !truth {
+						op = negOp(op)
+					}
+					lhsIsCount := bo.X == st.Val
+					rhsIsCount := bo.Y == st.Val
+					return (op == token.GTR && lhsIsCount) || (op == token.LSS && rhsIsCount)
+				})
+			}
+		})
+		c.ob("R-BESTBLOCK", "bestBlock:highest-is-maximum", cl.Pos(), okMax, "`highest` is raised exactly when a leaf's primary count exceeds it")
+		usesHL := false
+		eachInstr(b, func(_ *ssa.BasicBlock, _ int, in ssa.Instruction) {
+			if call, ok := in.(*ssa.Call); ok && call.Call.StaticCallee() != nil && call.Call.StaticCallee().Name() == "highestLeaf" {
+				usesHL = true
+			}
+		})
+		c.ob("R-BESTBLOCK", "bestBlock:ties-by-highestLeaf", b.Pos(), usesHL, "ties on the primary count are broken by highestLeaf (height, arrival, hash)")
 	}
 }
